@@ -5,6 +5,8 @@ import json, subprocess
 props=[json.loads(l) for l in open('/verif/properties.jsonl')]
 hooks_commits=subprocess.run(['git','-C','/repo','log','--format=%h','--reverse','--grep=^verif hooks'],capture_output=True,text=True).stdout.split()
 C={
+ "C17":("model_checking","bounded exhaustive program enumeration (all words <= d over writes/deletes/compaction/restart/backup/torn-tail restarts/large records) executed on simfs, fs.Mem, fs.OS and fs.OSMMap with a four-way differential oracle on per-call results and segment bytes",
+        "depth bound as reported; error texts not compared; hash seed pinned"),
  "C13":("model_checking","exhaustive interleaving exploration of the REAL lock system calls (stat/open/flock/unlink/close of fs.OS on a scratch directory, yield hooks as scheduling points, unbounded preemptions) for 2-3 openers/closers/dying holders + bounded exhaustive Open/Close/Kill/Put words on fs.OS, fs.OSMMap, fs.Mem; holder-count, acquiredExisting and failed-Open-changes-nothing oracles",
         "flock semantics of the running kernel; process death = closing the descriptor without unlinking; one known finding (creation race between two first-time openers: unnecessary recovery) is listed in known_findings.json"),
  "C10":("model_checking","exhaustive interleaving exploration (controlled scheduler; lock operations and, for FileSize/Backup, file-system calls as scheduling points) of all public-method pairs, Close triples, shared iterators, maintenance tasks and the background worker; panic/deadlock/handle-state-race/live-goroutine/use-after-Close oracles; complemented by a free-running Go race detector pass",
